@@ -611,8 +611,12 @@ class Emitter:
                 if len(toks) > 2 and toks[1] == '=' and toks[2] == 'phi':
                     p = P(toks[3:]); ty = parse_type(p); inc = []
                     while True:
-                        p.expect('['); vt = []
-                        while p.peek() != ',': vt.append(p.next())
+                        p.expect('['); vt = []; depth = 0
+                        while not (p.peek() == ',' and depth == 0):
+                            tk = p.next()
+                            if tk in ('(', '[', '{', '<{'): depth += 1
+                            elif tk in (')', ']', '}', '}>'): depth -= 1
+                            vt.append(tk)
                         p.expect(','); pred = p.next(); p.expect(']')
                         inc.append((vt, unq(pred)))
                         if not p.accept(','): break
